@@ -122,6 +122,32 @@ def handle : R String := do
     match Py.parseInt s base with
     | some v => pure s!"ok {v}"
     | none => pure "err"
+  | "pseudo" => do
+    let kind ← tok
+    let args ← list int
+    let v ← vm
+    let n (x : Int) : Nat := x.toNat
+    let conds : List Spec.Cond := [.always, .l, .ge, .le, .g, .ule, .ug, .z, .nz, .c, .nc, .s, .ns, .v, .nv]
+    let p : Option Spec.Pseudo := match kind, args with
+      | "SET", [d, x] => some (.set (n d) x)
+      | "SETRF", [d, x] => some (.setrf (n d) x)
+      | "MOVE", [a, b] => some (.move (n a) (n b))
+      | "CMP", [a, b] => some (.cmp (n a) (n b))
+      | "NEG", [a, b] => some (.neg (n a) (n b))
+      | "NOT", [a, b] => some (.not (n a) (n b))
+      | "FLAGS", [a] => some (.flags (n a))
+      | "CON", [] => some .con
+      | "COFF", [] => some .coff
+      | "CBON", [] => some .cbon
+      | "CCBOFF", [] => some .ccboff
+      | "HALT", [] => some .halt
+      | "NOP", [] => some .nop
+      | "CALL", [a, l] => some (.callLabel (n a) l)
+      | k, [l] => (conds.find? (fun c => (condCls c).1.pyName == k)).map (fun c => .brLabel c l)
+      | _, _ => none
+    match p with
+    | none => pure "nopseudo"
+    | some p => if decide p.Valid then pure s!"ok {wSpecState (Spec.pseudo p (abs v)) []}" else pure "invalid"
   | "wf" => do
     let v ← vm
     pure (wBool (wfb v))
